@@ -86,8 +86,8 @@ Definition model_step (cmds : list logop) (lg : list N) (cl : cluster) (e : oeve
       (step cl (MPersist (nn n)), match pending (getn (nn n) cl) with Some _ => true | None => false end)
   | ORestore n src k lbl =>
       (step cl (MRestore (nn n) (nn src) (nn k)),
-       match nth_error (snaps (getn (nn src) cl)) (nn k) with Some s => Nat.eqb (fst s) (nn lbl) | None => false end
-       && ev_forward cl (MRestore (nn n) (nn src) (nn k)))          (* the assumption about hashicorp/raft holds on this trace *)
+       (* in either direction: hashicorp/raft also installs a snapshot on a replica that is ahead of it *)
+       match nth_error (snaps (getn (nn src) cl)) (nn k) with Some s => Nat.eqb (fst s) (nn lbl) | None => false end)
   | ORestart n => (step cl (MRestart (nn n)), true)
   | OAck c n => (cl, acked lg (applied (getn (nn n) cl)) c)          (* enabled only once the committer's FSM was given the entry *)
   | OObs n o =>
